@@ -74,6 +74,16 @@ CHECKS['C17'] = ('4.C17', 'utf8_append_utf32 is proved over all 2^32 code points
                  'otherwise; prefix preserved) on a real std::string sink with libstdc++ append modelled on the SSO layout; unhex_char/unhex_string for all digit strings up to the type width; unescape_c/x/u and '
                  'append_all; unescape_j for 1..3 (thorough 4) escapes with fully symbolic hex digits: throws iff a lone surrogate, else exact concatenation with pairs combined.')
 
+E2TRUST = ('Trusted: the hand transcription of the RFC ABNF (spec/*.abnf), the PEG combinator and atom semantics written in lib/peg2smt/pegenc.py (the same semantics the CBMC engine proves for the real '
+           'combinators and atoms in C01/C09/C10/C15), z3 4.8/5.1 and cvc5 1.0 (cross-checked against each other for small n), the dumper that reads the grammar structure from the compiler '
+           '(rule_t/subs_t of the real headers, regenerated on every run). Encoder validated on every run against the real compiled parser and an independent recogniser on corpus and solver-chosen strings.')
+E2 = {
+    'C14': ('4.C14', 'The PEG extracted from the real json.hpp (70 rules) and the RFC 8259 ABNF are proved to accept the same byte strings for every string up to N bytes (quick 11, thorough 14): one SMT query per '
+                     'length, all bytes symbolic; never-throws is a structural fact (no raising rule in the extracted grammar).'),
+    'C20': ('4.C20', 'The PEGs extracted from the real uri.hpp for URI, URI-reference, absolute-URI, IPv4address, IPv6address (and IP-literal) and the RFC 3986 ABNF are proved to accept the same byte strings up to N bytes '
+                     '(quick 14/16/24, thorough 19-20/16/46-48; the IPv4/IPv6 bounds cover their whole languages); a raised must counts as rejection; only parse_error can be raised (structural).'),
+}
+
 NOT_YET = {}
 
 
@@ -94,9 +104,17 @@ def main():
             'level_note': TRUST,
             'technique': 'bounded symbolic model checking of the real code: clang LLVM IR of the real templates -> own IR-to-C translator -> CBMC/SAT, symbolic inputs and symbolic sub-rule tables, counterexamples replayed on the g++ build',
         })
+    for pid, (ref, text) in E2.items():
+        checks.append({
+            'property_id': pid, 'quick_cmd': './check %s --tier quick' % pid, 'thorough_cmd': './check %s --tier thorough' % pid,
+            'evidence_file': 'evidence/%s.json' % pid, 'replay_cmd_template': './check %s --replay {path}' % pid, 'engine': 'peg2smt',
+            'level_claimed': {'category': 'model_checking', 'text': text, 'design_ref': 'DESIGN.md section ' + ref}, 'level_note': E2TRUST,
+            'technique': 'bounded symbolic language equivalence: grammar structure extracted from the compiler -> packrat encoding of the PEG and derivability encoding of the RFC ABNF over a symbolic byte string in z3/cvc5, witnesses replayed on the real parser',
+        })
+    checks.sort(key=lambda c: c['property_id'])
     na = []
     for pid in ALL:
-        if pid not in CHECKS:
+        if pid not in CHECKS and pid not in E2:
             na.append({'property_id': pid, 'reason': NOT_YET.get(pid, 'check not built yet in this round (see DESIGN.md section 4 for the planned encoding)')})
     m = {
         'version': 1,
@@ -109,6 +127,7 @@ def main():
             'add_only': True,
         },
         'engines': [
+            {'name': 'peg2smt', 'path': 'lib/peg2smt/driver.py', 'serves_properties': sorted(E2), 'kind_free_text': 'grammar extraction through rule_t/subs_t of the real headers + bounded packrat/derivability encoding in z3 and cvc5'},
             {'name': 'll2c+cbmc', 'path': 'lib/vf.py', 'serves_properties': sorted(CHECKS), 'kind_free_text': 'clang-14 LLVM IR of wrapper TUs instantiating the real templates -> lib/ll2c.py (IR->C, exceptions lowered) -> CBMC 6.11 with unwinding assertions; translation validated per run against the g++ build; counterexamples replayed on the real build under ASan/UBSan'},
         ],
         'checks': checks,
